@@ -79,3 +79,34 @@ def units():
         u.defines_text = DEFINES
         us.append(u)
     return us
+
+
+# ---------------------------------------------------------------------------
+# BigInt::multiply by row lemmas: after row i the low (i + nb + 1) words equal the sum of the first i+1 rows of M-products.
+# Each lemma is asserted and then assumed (a cut): the next row is proved from the previous lemma, not from the whole history.
+def helpers(nres, na, nb):
+    return (r'''
+static uv%(R)d jpv_partial(const BigInt_%(R)d *x, int n) { uv%(R)d s = 0; for (int k = 0; k < n; k++) s |= (uv%(R)d)x->words[k] << (64 * k); return s; }
+static uv%(R)d jpv_rows(const BigInt_%(A)d *a, const BigInt_%(B)d *b, int rows) { uv%(R)d s = 0; for (int r = 0; r < rows; r++) for (int j = 0; j < %(NB)d; j++) s += (uv%(R)d)jpv_M(a->words[r], b->words[j]) << (64 * (r + j)); return s; }
+''' % dict(R=nres, A=na, B=nb, NB=nb // 64))
+
+
+def mul_unit(nres, na, nb, tier="quick"):
+    q = "BigInt<%d>::multiply<%d>" % (nres, na)
+    NB = nb // 64
+    lemma0 = "__CPROVER_assert(jpv_partial(self, %d) == jpv_rows(a, b, 1), \"multiply: row 0 lemma\"); __CPROVER_assume(jpv_partial(self, %d) == jpv_rows(a, b, 1));" % (NB + 1, NB + 1)
+    lemma = "__CPROVER_assert(jpv_partial(self, i + %d) == jpv_rows(a, b, i + 1), \"multiply: row lemma\"); __CPROVER_assume(jpv_partial(self, i + %d) == jpv_rows(a, b, i + 1));" % (NB + 1, NB + 1)
+    u = BVUnit(q, {q: c_bigint_multiply(nres, na, nb)}, P, unwind=max(nres // 64, 8) + 2, tier=tier, timeout=1500, spec_prelude=MDEF + helpers(nres, na, nb),
+               loop_contracts={q: {("end", 2): lemma}},
+               ghost={q: [(r"\(self\)->words\[g_BigInt_%d_word_length\] = carry" % nb, "after", lemma0)]},
+               canary=("== (", "== 1 + ("), extra=["--object-bits", "10"],
+               note="products as M; one asserted-then-assumed lemma per row (cut points), loops unrolled exactly")
+    u.defines_text = DEFINES
+    return u
+
+
+_fu0 = units
+
+
+def units():
+    return _fu0() + [mul_unit(768, 384, 384, "thorough")]
